@@ -592,4 +592,35 @@ def sRun (cfg : Cfg) : SState → List SOp → SState × List (Option Ans)
     let (s2, as) := sRun cfg s1 ops
     (s2, a :: as)
 
+/-! ### Port removal and re-creation (a port id gets a NEW port, possibly of another type)
+
+`BasePort.remove()` (API `DELETE /ports/{id}`) pops the port from the registry and calls
+`history.remove_samples([port], background=True)`: the port's cache dict is popped at once, the removal of its samples is
+only scheduled (`_pending_remove_samples`, here the list of port ids `pending`) and executed by the next janitor
+iteration that has a real date/time — for every sample stored under that id by then, those of a port created under the
+same id meanwhile included (the store is keyed by id).  A port created afterwards (API `POST /ports`) is a new object at
+the END of the registry: last read value null, last timestamp 0, and its own type — every later answer is adapted with
+the type of the port that exists now. -/
+
+/-- `BasePort.remove()` as far as the history is concerned (the scheduling itself: `schedule`). -/
+def removePort (st : State) (pid : Nat) : State :=
+  { st with ports := st.ports.filter (fun p => p.id != pid), cache := cacheDrop st.cache [pid] }
+
+/-- `_pending_remove_samples.append((port, None, None))` -/
+def schedule (pending : List Nat) (pid : Nat) : List Nat := pending ++ [pid]
+
+/-- `core.ports.load` of a port whose id is free (a taken id is refused: `duplicate-port`). -/
+def addPort (st : State) (p : Port) : State :=
+  if st.ports.any (fun q => q.id == p.id) then st else { st with ports := st.ports ++ [p] }
+
+/-- remove the port registered under `p.id` (if any) and register the new port `p` under the same id -/
+def recreatePort (st : State) (p : Port) : State := addPort (removePort st p.id) p
+
+/-- The second part of one `janitor_task` iteration (after the retention loop of `janitorTick`): the scheduled
+removals without bounds are grouped into ONE `remove_samples(ports)`; nothing happens without a real date/time. -/
+def janitorPending (cfg : Cfg) (st : State) (pending : List Nat) (now : Int) : State × List Nat :=
+  if ¬ (now > cfg.oldLimit) then (st, pending)
+  else if pending.isEmpty then (st, [])
+  else (hRemove st pending none none, [])
+
 end QtVerif.History
